@@ -15,6 +15,7 @@ EXPLANATION = (
 DECLINED = ["'read the value that was set' (contents of the memcpy'd buffer)"]
 ASSUMPTIONS = ["C05.R4 / C04.R3 for the wait list", "user callbacks are opaque"]
 RULES_DOC = dict(common.SHARED_DOC)
+RULES_DOC["X7"] = common.X7_DOC
 RULES_DOC["X4"] = common.X4_DOC
 RULES_DOC["X5"] = common.X5_DOC
 RULES_DOC["R5"] = "= C06.R2 and C06.R1/R3/R4: the waiter that a set wakes is pushed before it stops being counted as blocked, and is counted on the pool it will be resumed on (a woken waiter is never stranded in a pool whose stream already terminated)"
@@ -305,6 +306,7 @@ def rule_R4(P, rep):
 
 
 def run(P, rep, tier):
+    common.rule_X7(P, rep, records=('ABTI_eventual', 'ABTI_future'))
     common.rule_X6(P, rep)
     common.rule_widths(P, rep, [('ABTI_future', 'counter'), ('ABTI_future', 'num_compartments')])
     common.rule_X4(P, rep)
